@@ -280,3 +280,12 @@ def n5(ctx):
 
 
 RULES.append(n5)
+
+
+@rule("N6", doc="a derived self-symmetry enters a class's group only as a permutation of the class's slots — the two invocations it is read off have the same slot SET (C10.G7): a partial map in the group panics or is silently ignored depending on which slot is the lowest moved one, i.e. on how the class's slot names sort")
+def n6(ctx):
+    from . import c10
+    c10.g7(ctx)
+
+
+RULES.append(n6)
